@@ -23,14 +23,29 @@ RULE = ("per instance a pool of feasible packings (oracle-filtered) from "
 LEVEL_ASSUMPTIONS = [
     "objective oracle vlib/oracles/packing.py:objective_values written from "
     "the property text (skyline by coordinate compression)"]
-REQUIRED = {"contract_evaluate_evaluated": 2000, "dominance_pairs": 300,
+REQUIRED = {"suite_runs": 1, "contract_evaluate_evaluated": 2000, "dominance_pairs": 300,
             "origin[nondecoder]": 200, "from_packing_and_end_result_ok": 20,
             "dtype[int8]": 1, "dtype[int16]": 1, "dtype[int32]": 1,
             "dtype[int64]": 1}
 MON = None
 
 
+# the repository's own tests as a further workload, observed by the
+# process-wide contracts of vlib/monitors (see vlib/suite.py)
+SUITE_TESTS = ['tests/binpacking2d/objectives']
+SUITE_DOMAINS = ['packing']
+
+
 def plan(tier: str, seed: int):
+    rounds = 1 if tier == "quick" else 6
+    return _plan(tier, seed) + [
+        {"name": f"suite{i}", "engine": "jit", "timeout": 3000,
+         "args": {"mode": "suite", "tests": SUITE_TESTS,
+                  "domains": SUITE_DOMAINS, "rounds": rounds}}
+        for i in range(1 if tier == "quick" else 4)]
+
+
+def _plan(tier: str, seed: int):
     if tier == "quick":
         return [{"name": f"s{i}", "engine": "jit", "args": {"n": 120},
                  "timeout": 900} for i in range(4)]
